@@ -108,11 +108,27 @@ IterVerdict(c) ==
    \cup V(~ def \/ F.c # 0 \/ (\E l \in 1 .. Len(lv) : lv[l].c # 0)
           \/ MLAffine(lv, c.transfers, c.kind, c.nsw, c.u_init, spread, [m \in 1 .. F.M |-> c.probe]), "iter.affine"))
 
+\* ---- three levels, restriction down the whole hierarchy REPEATED after a new initial value arrived on the finest level ------
+\* (what happens to a step of a block whose predecessor sends a new end value between two iterations): every level must see
+\* the restriction of the NEW initial value, and the coarse problems are those of the new data
+Restrict2Verdict(c) ==
+    LET lv == c.levels
+        R1 == RestrictLv(lv[1], lv[2], c.transfers[1], c.u0b, c.U, <<>>)
+        R2 == RestrictLv(lv[2], lv[3], c.transfers[2], R1.u0, R1.U, R1.tau)
+        o == c.out
+    IN  V(o.mid.u0 = R1.u0, "hist.restrict_again_u0_mid")
+   \cup V(o.mid.U = R1.U /\ o.mid.tau = R1.tau, "hist.restrict_again_mid")
+   \cup V(o.coarse.u0 = R2.u0, "hist.restrict_again_u0_coarse")
+   \cup V(o.coarse.U = R2.U /\ o.coarse.tau = R2.tau, "hist.restrict_again_coarse")
+   \cup V(\A k \in 1 .. lv[3].M : Defect(lv[3], o.coarse.u0, o.coarse.U, o.coarse.tau)[k]
+                = VSum([m \in 1 .. lv[2].M |-> VSc(c.transfers[2].Rc[k][m], MV(c.transfers[2].Rs, Defect(lv[2], o.mid.u0, o.mid.U, o.mid.tau)[m]))], lv[3].n)
+          \/ ~ RowsSumToOne(c.transfers[2].Rc, lv[3].M, lv[2].M), "prop.coarse_defect_is_restricted_defect_after_new_u0")
+
 Init == i = 1
 Next == /\ i <= Len(Cases)
         /\ LET c == Cases[i]
                v == IF c.mode = "sweep" THEN SweepVerdict(c) ELSE IF c.mode = "run" THEN RunVerdict(c)
-                    ELSE IF c.mode = "iter" THEN IterVerdict(c) ELSE TransferVerdict(c)
+                    ELSE IF c.mode = "iter" THEN IterVerdict(c) ELSE IF c.mode = "restrict2" THEN Restrict2Verdict(c) ELSE TransferVerdict(c)
            IN PrintT(ToJson([cid |-> c.id, viol |-> SetToSeq(v)]))
         /\ i' = i + 1
 Spec == Init /\ [][Next]_i
